@@ -135,7 +135,7 @@ def ct_harness(rep, cfg, modpaths, name, roles, doc, force_backend=None, crate="
         try:
             it.call(fname, args)
             rec["goals"].append(dict(goal="no branch, switch, address, length, division or call target depends on a secret (%d branches, %d memory accesses executed, all public; %d operations on secret data)" % (it.n_branches, it.n_addrs, it.secret_ops),
-                                     verdict="unsat", solver_s=0.0, cases=1, solver_calls=0, kind="single-path execution over the abstract secret"))
+                                     verdict="unsat", solver_s=0.0, cases=1, solver_calls=0, kind="single-path execution over the abstract secret", nontrivial=bool(it.secret_ops > 0 and (it.n_branches + it.n_addrs) > 0)))
             moved = any(isinstance(e[0], tsym.Secret) for R in it.regions.values() if R.name.startswith("out") for e in R.b.values())
             if it.secret_ops == 0 and not moved:
                 rec["status"] = "inconclusive"; rec["why"] = "vacuous: no operation touched secret data"
